@@ -993,6 +993,81 @@ func (g *gen) poolCases() []Case {
 	return cases
 }
 
+
+// float folds with 3-5 operands in every constant / dynamic pattern over values where re-association
+// changes the result: (b) a constant written in the template vs the same constant read from a group,
+// (a) a funcs-file function over its parameters called with constant and mixed arguments vs the inlined
+// body; optimising and plain builder. Equality-only (float arithmetic is not modelled).
+func (g *gen) floatFoldCases() []Case {
+	r := g.r
+	vals := []string{"0.1", "0.2", "0.3", "0.7", "1e16", "1", "-1e16", "3", "1e-17", "1e308", "10", "-0.1", "0.5", "1e-320"}
+	ops := []string{"sumf", "subf", "multf", "divf"}
+	var cases []Case
+	for _, op := range ops {
+		var alts [][]AltItem
+		type fn struct{ funcs, call, inl string; ctx Ctx }
+		var fns []fn
+		for n := 3; n <= 5; n++ {
+			// patterns: constants first, last, interleaved, a single constant in the middle, random
+			pats := [][]bool{}
+			first, last, inter, mid := make([]bool, n), make([]bool, n), make([]bool, n), make([]bool, n)
+			for i := 0; i < n; i++ {
+				first[i] = i < n-1
+				last[i] = i > 0
+				inter[i] = i%2 == 1
+				mid[i] = i == n/2
+			}
+			rnd := make([]bool, n)
+			for i := range rnd {
+				rnd[i] = r.Bool()
+			}
+			rnd[r.Intn(n)] = true
+			rnd[(r.Intn(n-1)+1+0)%n] = rnd[(r.Intn(n-1)+1+0)%n] && r.Bool()
+			pats = append(pats, first, last, inter, mid, rnd)
+			for pi, pat := range pats {
+				vs := make([]string, n)
+				for i := range vs {
+					vs[i] = Pick(r, vals)
+				}
+				if pi == 0 && n == 3 { // the documented non-associative triple
+					vs = []string{"0.1", "0.2", "0.3"}
+					pat = []bool{false, true, true}
+				}
+				var withConst, allDyn, args, params []string
+				for i := 0; i < n; i++ {
+					ref := fmt.Sprintf("{%d}", i)
+					allDyn = append(allDyn, ref)
+					params = append(params, ref)
+					if pat[i] {
+						withConst = append(withConst, vs[i])
+						args = append(args, vs[i])
+					} else {
+						withConst = append(withConst, ref)
+						args = append(args, ref)
+					}
+				}
+				ctx := Ctx{M: vs, K: map[string]string{}}
+				tC := "{" + op + " " + strings.Join(withConst, " ") + "}"
+				tD := "{" + op + " " + strings.Join(allDyn, " ") + "}"
+				alts = append(alts, []AltItem{{tC, ctx}, {tD, ctx}})
+				if pi < 3 || r.Chance(1, 2) {
+					name := fmt.Sprintf("f%s%d", op[:1], n)
+					fns = append(fns, fn{name + " {" + op + " " + strings.Join(params, " ") + "}\n",
+						"{" + name + " " + strings.Join(args, " ") + "}", tC, ctx})
+				}
+			}
+		}
+		e := &EqIn{Kind: "alt", Alts: alts}
+		cases = append(cases, mkEqCase(e, runEq(e), []string{"float-fold", "float-const-vs-group", "float-op:" + op}))
+		for _, k := range []int{0, len(fns) / 3, 2 * len(fns) / 3, len(fns) - 1} { // 3, 4 and 5 operands
+			f := fns[k]
+			e := &EqIn{Kind: "lib", Funcs: f.funcs, Call: f.call, Inlined: f.inl, Ctxs: []Ctx{f.ctx, {M: []string{"0.1", "0.2", "0.3", "0.7", "3"}, K: map[string]string{}}, {M: []string{}, K: map[string]string{}}}}
+			cases = append(cases, mkEqCase(e, runEq(e), []string{"float-fold", "float-call-vs-inline", "float-op:" + op}))
+		}
+	}
+	return cases
+}
+
 // integer folds with two different error conditions among their operands (a zero divisor and a
 // non-integer), the offending operand being a constant, a capture, or a (missing) function parameter:
 // the marker must not depend on what is constant. Modelled cases.
@@ -1739,6 +1814,7 @@ func c10Gen(r *Rng, n int, tier string) []Case {
 	cases = append(cases, g.eqLibCases()...)
 	cases = append(cases, g.eqSeqCases()...)
 	cases = append(cases, g.eqMathCases()...)
+	cases = append(cases, g.floatFoldCases()...)
 	cases = append(cases, g.eqFnTimeCases()...)
 	cases = append(cases, g.eqCliCases()...)
 	if rareBin != "" {
@@ -1777,6 +1853,7 @@ func main() {
 			"12 operand-order cases (divi / modi with a zero divisor and a non-integer operand, the offending operand a constant, a capture, or a present / missing parameter of a funcs-file function; sumi / multi for comparison), modelled: call = inlined body, optimising = plain; " +
 			"9 functions-file cases with significant white space (runs of 2-3 blanks and tabs in literal text and inside quoted arguments, leading blanks after the name, blanks before a continuation backslash, a tab instead of the blank after the name), modelled: loader result, call and inlined body byte for byte; " +
 			"14 formula cases ({! ..}, one per operator * & && || + - / | % ^ == < >= <<): a constant operand written in the formula (0 1 2 0.5 (3-3) (0-1) (2*0) (1||0), on either side, bare or inside a larger formula) vs the same constant read from a group, for values of the variable among 5 -3 0 2.5 -0 empty missing text inf -inf nan 1e400, optimising and plain builder: all equal (compile-time folding must give the run-time value); " +
+			"20 float-fold cases (sumf subf multf divf, 3-5 operands, constants first / last / interleaved / single / random, values among 0.1 0.2 0.3 0.7 1e16 -1e16 1 3 10 1e-17 1e308 0.5 -0.1 1e-320 where re-association changes the result): per operator one case of 15 pairs 'constant written in the template vs the same constant read from a group' and 4 cases of a funcs-file function over its parameters called with constant and mixed arguments vs the inlined body; optimising and plain builder, all equal; " +
 			"18 sequence cases (time / buckettime / timeformat / timeattr with explicit format and time-zone arguments, named formats, a constant prefix plus a capture, a named key, nested in sumi/timeformat, durations, floats/json/format; 3 with the auto-detected layout): three evaluation sequences per template on ONE compiled expression - the all-empty context (the optimiser's probe value) first, unparseable values, the same value on consecutive evaluations, a bad value first, a seeded shuffle - step by step: optimising = plain = a fresh plain compile = a fresh optimising compile of that step (for the auto-detected layout, which is remembered by design, only optimising = plain); " +
 			"11 funcs-file cases whose body reaches time/buckettime (auto-detected layout, remembered by the stage), timeformat, timeattr, duration through {i}, a later definition calling an earlier one, called with arguments mixing constant text and captures: call (optimising, plain) = inlined body (optimising, plain) on every context, every builder compiled freshly; " +
 			"11 command-line cases: the rare binary built from $VERIF_REPO, a generated functions file (random layout) whose body has an argument-free sub-expression governed by a global switch ({hi ..} {hf ..} --noformat, {color ..} --color/--nocolor, {bar ..} --nounicode, {load ..} --noload), `rare <switch> --funcs F expression <call>`, the same with --no-optimize, and `rare <switch> expression <inlined body>` with and without --no-optimize (one case through RARE_FUNC_FILES): the four stdout+exit-code strings must be equal. " +
